@@ -142,8 +142,11 @@ func (s *V2Session) buildAndSend(ctx context.Context, c ipmi.Command) error {
 		Class:    layers.RMCPClassIPMI,
 	}
 	s.v2SessionLayer = ipmi.V2Session{
-		Encrypted:                true,
-		Authenticated:            true,
+		Encrypted: true,
+		// packets are only signed if an integrity algorithm was negotiated;
+		// with IntegrityAlgorithmNone there is no AuthCode, so the flag and
+		// trailer must be absent
+		Authenticated:            s.integrityAlgorithm != nil,
 		ID:                       s.RemoteID,
 		PayloadDescriptor:        ipmi.PayloadDescriptorIPMI,
 		IntegrityAlgorithm:       s.integrityAlgorithm,
